@@ -395,6 +395,12 @@ fn values_part(plan: &Plan) -> RunResult {
                 b.total_fees = extreme(&mut rng);
                 b.avg_fee_per_byte = extreme(&mut rng);
                 b.previous_block_unpaid = extreme(&mut rng);
+                b.avg_total_fees = extreme(&mut rng);
+                b.avg_total_fees_new = extreme(&mut rng);
+                b.avg_total_fees_atr = extreme(&mut rng);
+                b.avg_payout_routing = extreme(&mut rng);
+                b.avg_payout_mining = extreme(&mut rng);
+                b.avg_nolan_rebroadcast_per_block = extreme(&mut rng);
                 let nt = rng.below(5);
                 for _ in 0..nt {
                     let mut t = rand_tx(&mut rng, &keys);
@@ -420,6 +426,34 @@ fn values_part(plan: &Plan) -> RunResult {
                             }
                         }
                         Err(_) => r.violate("C09|decode-fails|block", format!("valid block ({} txs, {:?}) does not decode", nt, ty)),
+                    }
+                }
+                // lite form: the projection served to light clients keeps the block's hash across the wire
+                {
+                    // (with a header commitment that matches the carried transactions, as on any acceptable block:
+                    // the projection recomputes it)
+                    let mut y = b.clone();
+                    y.merkle_root = [0; 32];
+                    y.created_hashmap_of_slips_spent_this_block = true;
+                    let _ = y.generate();
+                    y.sign(&keys[0].sk);
+                    y.created_hashmap_of_slips_spent_this_block = true;
+                    // (a block whose claimed leaf count is refused has no commitment and is not acceptable anyway)
+                    if y.generate().is_ok() && y.merkle_root != [0; 32] {
+                        let keylist = if rng.chance(1, 2) { vec![rng.pick(&keys).pk] } else { vec![] };
+                        let lite = y.generate_lite_block(keylist);
+                        let bytes = lite.serialize_for_net(BlockType::Full);
+                        match Block::deserialize_from_net(&bytes) {
+                            Ok(mut x) => {
+                                x.created_hashmap_of_slips_spent_this_block = true;
+                                if x.generate().is_ok() && (x.hash != y.hash || x.pre_hash != y.pre_hash) {
+                                    let (a, b2) = (x.serialize_for_signature(), y.serialize_for_signature());
+                                    let at = a.iter().zip(b2.iter()).position(|(p, q)| p != q);
+                                    r.violate("C09|hash-changes-on-wire|lite-block", format!("the lite form of a block ({} txs) has another hash after the wire than the full block (signed header bytes first differ at {:?} of {}; signature equal: {})", nt, at, a.len(), x.signature == y.signature));
+                                }
+                            }
+                            Err(_) => r.violate("C09|decode-fails|lite-block", format!("the lite form of a valid block ({} txs) does not decode", nt)),
+                        }
                     }
                 }
                 d.u64(nt);
